@@ -3,6 +3,7 @@
 package xpmock
 
 import (
+	"sync"
 	"context"
 	"errors"
 	"fmt"
@@ -166,8 +167,16 @@ func (e *entry) GetSdcpbPath() *sdcpb.Path {
 	if f == nil {
 		f = DefaultDerefTarget
 	}
-	return f(e.path)
+	// The tree keeps one path object per node and hands out that object, as a data tree that stores
+	// its nodes' paths does: a machine that extends it in place changes what every later run sees.
+	fresh := f(e.path)
+	if old, ok := storedPaths.LoadOrStore(Canon(fresh), fresh); ok {
+		return old.(*sdcpb.Path)
+	}
+	return fresh
 }
+
+var storedPaths sync.Map // canonical path -> *sdcpb.Path, process-wide
 
 func (e *entry) BreadthSearch(ctx context.Context, p *sdcpb.Path) ([]xpath.Entry, error) {
 	c := Canon(p)
